@@ -46,6 +46,21 @@ func baseCase(r *rand.Rand, plans []spec.Plan) *eng.Case {
 }
 
 func orderProfile(r *rand.Rand, idx int, tier string) *eng.Case {
+	if idx%10 == 5 {
+		// several clients start the same plan at once: still one execution, in order
+		g := gen.Base()
+		c := baseCase(r, plansOf(r, &g, 1))
+		c.RacingStarts = 2 + r.Intn(5)
+		c.VaultDelayUS = []int{300, 1500}[r.Intn(2)]
+		return c
+	}
+	if idx%10 == 7 {
+		// the context handed to Start is cancelled right after Start returned (documented not to stop the run)
+		g := gen.Base()
+		c := baseCase(r, plansOf(r, &g, nPlans(r)))
+		c.CancelStartCtx = true
+		return c
+	}
 	if idx%6 == 0 {
 		// work still in flight when the block is found to have failed: deferred checks must still come last
 		p := slowSurvivor(r, "p0", idx%12 == 0)
@@ -81,6 +96,13 @@ func concProfile(r *rand.Rand, idx int, tier string) *eng.Case {
 	g.PFailCont = 0
 	n := 1 + r.Intn(4)
 	c := baseCase(r, plansOf(r, &g, n))
+	if idx%10 == 5 {
+		// several clients start the plan at once: still one execution (one plan only: a double execution ends
+		// in a process panic as soon as its second run finishes, so the verdict is journalled at Wait return)
+		c.Plans = c.Plans[:1]
+		c.RacingStarts = 2 + r.Intn(5)
+		c.VaultDelayUS = 2000
+	}
 	return c
 }
 
@@ -467,6 +489,25 @@ func engineRun(prop string, profile engineProfile, orc engineOracle, hangIsViola
 	return func(c *Ctx, idx int) CaseResult {
 		r := gen.Rand(c.Seed, prop, idx)
 		ec := profile(r, idx, c.Tier)
+		if ec.RacingStarts > 1 && c.Emit != nil {
+			// a double execution ends in a process panic when its second run finishes: journal the verdict on
+			// what was observed up to the first Wait return
+			ec.OnWaited = func(run *eng.Run) {
+				early := CaseResult{Counters: map[string]int{}, Note: "provisional verdict at Wait return"}
+				for i := range run.Plans {
+					pr := &run.Plans[i]
+					if !pr.WaitRet || pr.P0 == nil {
+						continue
+					}
+					t := oracle.Project(run.Events, pr.ID, pr.WaitSeq)
+					orc(ec, run, pr, t, &early)
+				}
+				if len(early.Viols) > 0 {
+					early.Witness = map[string]any{"case": ec, "events": run.Events}
+					c.Emit(early)
+				}
+			}
+		}
 		run := eng.Execute(ec)
 		res := CaseResult{Counters: map[string]int{}}
 		if run.Err != "" {
@@ -547,7 +588,7 @@ func raceHas(subs ...string) func(ev.RaceBlock) bool {
 func init() {
 	register(&Prop{
 		ID: "C01", Level: "exploration", Batch: 20, PerCaseTimeout: 70 * time.Second,
-		Rule:  "every 20th case explores every crash point of a plan and applies the order rules to the plugin log of the process that resumes it (what ran before the crash is taken from the durable snapshot); every 6th case the slow-survivor template (Concurrency>=2, >=C+2 sequences, the first fails at once or a continuous check fails, the others are slow, deferred checks present); otherwise case i = PRNG(seed,i) plan set from the 'order' profile (1-3 plans of 1-3 blocks x 1-4 sequences x 1-3 actions, random check groups, concurrency, tolerance, latencies with a slow tail, vault delays); a case is non-trivial/distinct by the hash of (final statuses of all non-action objects, reason, concurrency/tolerance values)",
+		Rule:  "every 20th case explores every crash point of a plan and applies the order rules to the plugin log of the process that resumes it (what ran before the crash is taken from the durable snapshot); every 10th case starts the plan from 2-6 racing goroutines, every 10th case cancels the context passed to Start right after Start returned; every 6th case the slow-survivor template (Concurrency>=2, >=C+2 sequences, the first fails at once or a continuous check fails, the others are slow, deferred checks present); otherwise case i = PRNG(seed,i) plan set from the 'order' profile (1-3 plans of 1-3 blocks x 1-4 sequences x 1-3 actions, random check groups, concurrency, tolerance, latencies with a slow tail, vault delays); a case is non-trivial/distinct by the hash of (final statuses of all non-action objects, reason, concurrency/tolerance values)",
 		Cases: nCases(320, 6000),
 		Run: everyNth(20, c01Crash, engineRun("C01", orderProfile, func(c *eng.Case, run *eng.Run, pr *eng.PlanRun, t *oracle.Trace, res *CaseResult) {
 			res.Viols = append(res.Viols, oracle.C01(pr.Spec, t)...)
@@ -562,7 +603,7 @@ func init() {
 	})
 	register(&Prop{
 		ID: "C02", Level: "exploration", Batch: 16, PerCaseTimeout: 70 * time.Second,
-		Rule:  "case i = PRNG(seed,i) 1-4 concurrent plans from the 'conc' profile (2-7 sequences, Concurrency in {unset,1,2,3,n-1,n,n+2}, every action sleeps 1-5 ms); non-trivial = some block reached min(Concurrency, #sequences) sequences in flight; distinct by final-status hash",
+		Rule:  "case i = PRNG(seed,i) 1-4 concurrent plans from the 'conc' profile (2-7 sequences, Concurrency in {unset,1,2,3,n-1,n,n+2}, every action sleeps 1-5 ms; every 10th case starts each plan from 2-6 racing goroutines); non-trivial = some block reached min(Concurrency, #sequences) sequences in flight; distinct by final-status hash",
 		Cases: nCases(250, 5000),
 		Run: engineRun("C02", concProfile, func(c *eng.Case, run *eng.Run, pr *eng.PlanRun, t *oracle.Trace, res *CaseResult) {
 			r := oracle.C02(pr.Spec, run.Events, pr.ID)
